@@ -165,7 +165,9 @@ impl Property for C13Prop {
         }
         // equally named events: a producer sends the same event name several times (identity cannot come from
         // the name; a platform must not "debounce" or coalesce them)
+        let mut has_same = false;
         if rng.chance(1, 3) {
+            has_same = true;
             let p = rng.below(producers.len() as u64) as usize;
             for _ in 0..rng.range(2, 5) {
                 let at = rng.below(producers[p].len() as u64 + 1) as usize;
@@ -205,6 +207,14 @@ impl Property for C13Prop {
             }
             notes.insert(format!("heavy:{}", n), parts.join(";"));
             heavy.insert(n, h);
+        }
+        // every 'same' event arms a delayed send without id, all with one event name: several of them are pending
+        // at once, each is an event of its own that the timer thread must deliver
+        if has_same && rng.chance(1, 2) {
+            let mut h = Heavy::default();
+            h.delayed = Some(("d.same".to_string(), rng.range(20, 60)));
+            notes.insert("heavy:same".into(), format!("d=d.same@{}", h.delayed.as_ref().unwrap().1));
+            heavy.insert("same".into(), h);
         }
         // stop / cancel in the middle of one producer's script
         let mut with_stop = false;
@@ -399,13 +409,15 @@ impl Property for C13Prop {
         let stop_bracket_seq: Option<u64> = brackets.iter().find(|b| b.name == "stop" || b.name == CANCEL).map(|b| b.start_seq);
         let mut per_sender: BTreeMap<usize, Vec<(u64, String)>> = BTreeMap::new();
         for (_seq, task, ev_id, ev) in &sends {
-            if ev_name(ev).starts_with("ghost.") || ev_name(ev) == "same" {
+            if ev_name(ev).starts_with("ghost.") || ev_name(ev) == "same" || ev_name(ev) == "d.same" {
                 continue; // stale events are ignored by the platform; equally named events are judged by count
             }
             per_sender.entry(*task).or_default().push((*ev_id, ev_name(ev).to_string()));
         }
         let mut same_sent = 0usize;
         let mut same_received = 0usize;
+        let mut dsame_sent = 0usize;
+        let mut dsame_received = 0usize;
         for (_seq, _task, ev_id, ev) in &sends {
             let name = ev_name(ev).to_string();
             verdict.evaluations += 1;
@@ -418,6 +430,13 @@ impl Property for C13Prop {
                 same_sent += 1;
                 if received {
                     same_received += 1;
+                }
+                continue;
+            }
+            if name == "d.same" {
+                dsame_sent += 1;
+                if received {
+                    dsame_received += 1;
                 }
                 continue;
             }
@@ -465,6 +484,15 @@ impl Property for C13Prop {
             }
         }
 
+        // --- equally named delayed events (sent by the timer thread): judged by count as well
+        if dsame_sent > 0 {
+            verdict.evaluations += 1;
+            let done = processed.get("d.same").copied().unwrap_or(0);
+            if done > dsame_received || (!stopped && done < dsame_sent) {
+                let (rule, sig) = if done > dsame_received { ("C13.duplicated", "same-name-count:more:timer") } else { ("C13.lost", "same-name-count:less:timer") };
+                vio.push(viol("C13", rule, format!("{} delayed events named 'd.same' were put on the queue ({} dequeued), {} were processed", dsame_sent, dsame_received, done), sig.into()));
+            }
+        }
         // --- equally named events: as many processed as were dequeued (all of them if the session kept running)
         if same_sent > 0 {
             probes.hit("equally_named_events");
@@ -601,6 +629,15 @@ impl Property for C13Prop {
                     }
                     RecKind::TimerFire { item } if own_items.contains(item) => {
                         firing.insert(r.task, (*item, r.seq, false));
+                    }
+                    RecKind::TimerCancel { item, fired: false } if own_items.contains(item) => {
+                        // the documents of this workload contain no <cancel>: a pending delayed send that is dropped
+                        // while the session runs is an event of the timer thread that will never be processed
+                        verdict.evaluations += 1;
+                        let ended_before = end_seq.map(|e| e < r.seq).unwrap_or(false);
+                        if !ended_before {
+                            vio.push(viol("C13", "C13.lost", format!("pending delayed send item {} was dropped (seq {}) while the session was running; no <cancel> exists in the document", item, r.seq), "delayed-send-dropped-while-pending".into()));
+                        }
                     }
                     RecKind::Send { chan: c, ok: true, .. } if *c == chan => {
                         if let Some(f) = firing.get_mut(&r.task) {
